@@ -67,6 +67,7 @@ def judge_slice(case, rec):
     _nontrivial(case, rec)
     tkeys = dims[0].keys if nd == 3 else [None]
     for part, tkey in zip(cube.partitions, tkeys):
+        lib.warm(part, case.get("warmup"))
         orc = Oracle(sv, q, table_key=tkey)
         rspecs, cspecs = _specs(part, orc, case)
         nr, nc = len(rspecs), len(cspecs)
